@@ -21,6 +21,7 @@ From stdpp Require Import gmap strings.
 From EV Require Import Base.Str Model.Value Model.Adapt Model.Keyspace Model.Reply Model.Prog Model.Dispatch Model.RespWire.
 From EV Require Import Model.CmdList Model.CmdGeneric Model.CmdString.
 From EV Require Import Model.HashVal Model.CmdHash Model.CmdSet Model.ZSetOps Model.ZSetMulti Model.CmdZSet.
+From EV Require Import Model.CmdZRand Model.CmdKeyspace.
 From EV Require Import Proofs.RespWireProofs Proofs.WireProofs Proofs.WireReplies.
 Local Open Scope Z_scope.
 
@@ -267,6 +268,26 @@ Proof.
              | apply ok_zinter | apply ok_zunion | apply ok_zdiff | apply ok_zmpop ].
 Qed.
 
+(** ZRANDMEMBER, any selection function. *)
+Lemma ok_zrandmember pick argv d : decode_zrandmember pick argv = Some d -> body_ok d.
+Proof.
+  revert d. intros d. unfold decode_zrandmember. cbv zeta.
+  destruct (_ || _); intros [= <-]. unfold body_ok; cbn [zd_body].
+  destruct (zrand_count argv); [|done]. destruct (_ && _); [done|]. split; [done|]. intros zz. apply rok_items.
+Qed.
+Lemma lv_zrand pick name h argv : zrand_handler pick name = Some h -> typed_leaves (h argv).
+Proof.
+  unfold zrand_handler, typed_leaves. destruct (String.eqb _ _); [|done]. intros [= <-].
+  unfold handle_zrandmember. apply lv_run_single_dec. intros d. apply ok_zrandmember.
+Qed.
+
+(** RANDOMKEY (any random source), TOUCH, OBJECTFREQ, OBJECTIDLETIME. *)
+Lemma lv_keyspace cands name h argv : keyspace_handler cands name = Some h -> typed_leaves (h argv).
+Proof.
+  unfold keyspace_handler, typed_leaves. chain;
+    unfold handle_randomkey, handle_touch, handle_objfreq, handle_objidletime; lv; fin.
+Qed.
+
 (** * Generic module *)
 Lemma lv_del_keys ks ex : forall n, leaves rok (del_keys ks ex n).
 Proof.
@@ -353,7 +374,9 @@ Proof.
   destruct (set_handler default_pick name) as [h3|] eqn:E3; [intros [= <-]; by eapply lv_set|].
   destruct (zset_handler name) as [h4|] eqn:E4; [intros [= <-]; by eapply lv_zset|].
   destruct (generic_handler name) as [h5|] eqn:E5; [intros [= <-]; by eapply lv_generic|].
-  destruct (string_handler name) as [h6|] eqn:E6; [intros [= <-]; by eapply lv_string|]. done.
+  destruct (string_handler name) as [h6|] eqn:E6; [intros [= <-]; by eapply lv_string|].
+  destruct (zrand_handler default_zpick name) as [h7|] eqn:E7; [intros [= <-]; by eapply lv_zrand|].
+  destruct (keyspace_handler default_keysource name) as [h8|] eqn:E8; [intros [= <-]; by eapply lv_keyspace|]. done.
 Qed.
 
 (** Every reply a handler can return, from any state, in any database, for any argument vector. *)
@@ -369,10 +392,11 @@ Theorem reply_wellformed w c argv rest :
 Proof. apply reply_wellformed_partial. intros name h. apply handler_typed_leaves. Qed.
 
 (** The same for a handler run directly (the embedded API, the AOF / raft replay), any selection function
-    for the random set commands. *)
-Theorem handler_reply_wellformed pick name h argv d s rest :
+    for the random set commands and ZRANDMEMBER, any random source for RANDOMKEY. *)
+Theorem handler_reply_wellformed pick zpick cands name h argv d s rest :
   first_some [list_handler name; hash_handler name; set_handler pick name; zset_handler name;
-              generic_handler name; string_handler name] = Some h ->
+              generic_handler name; string_handler name;
+              zrand_handler zpick name; keyspace_handler cands name] = Some h ->
   let r := snd (run_seq d (h argv) s) in
   decode_strict (reply_bytes r +:+ rest) = DOk (reply_value r) rest.
 Proof.
@@ -382,7 +406,9 @@ Proof.
   destruct (set_handler pick name) as [h3|] eqn:E3; [intros [= <-]; by eapply lv_set|].
   destruct (zset_handler name) as [h4|] eqn:E4; [intros [= <-]; by eapply lv_zset|].
   destruct (generic_handler name) as [h5|] eqn:E5; [intros [= <-]; by eapply lv_generic|].
-  destruct (string_handler name) as [h6|] eqn:E6; [intros [= <-]; by eapply lv_string|]. done.
+  destruct (string_handler name) as [h6|] eqn:E6; [intros [= <-]; by eapply lv_string|].
+  destruct (zrand_handler zpick name) as [h7|] eqn:E7; [intros [= <-]; by eapply lv_zrand|].
+  destruct (keyspace_handler cands name) as [h8|] eqn:E8; [intros [= <-]; by eapply lv_keyspace|]. done.
 Qed.
 
 (** * Floats as Go prints them *)
